@@ -36,6 +36,24 @@ def consume_fail(b):
     return [{'a': 'ConsumeFail', 'b': b}]
 
 
+def open_write(b, x='a'):
+    """blob.open('w'), write, and the handle stays open"""
+    return [{'a': 'OpenWrite', 'b': b, 'x': x}]
+
+
+def open_read(b):
+    return [{'a': 'OpenRead', 'b': b}]
+
+
+def close_all():
+    return [{'a': 'CloseAll'}]
+
+
+def boundary():
+    """transaction.begin() in c1 while it has no changes"""
+    return [{'a': 'Boundary'}]
+
+
 def modify_p(v='v2'):
     return [{'a': 'ModifyP', 'v': v}]
 
@@ -129,7 +147,7 @@ _NODE = re.compile(r'^(-?\d+) \[label="((?:[^"\\]|\\.)*)"(?:,tooltip="(?:[^"\\]|
 _EDGE = re.compile(r'^(-?\d+) -> (-?\d+) \[label="([^"]*)"')
 _ARGS = {'CreateBlob': ('b', 'c'), 'Rewrite': ('b', 'x'), 'Append': ('b', 'x'), 'ConsumeFile': ('b', 'x'), 'ConsumeFail': ('b',),
          'ModifyP': ('v',), 'Rollback': ('k',), 'OtherCommit': ('o', 'x'), 'UBegin': ('t',), 'Pack': ('T',),
-         'Wrong': ('m',), 'OtherAbort': ('b', 'x'), 'OtherFinish': ('b', 'x')}
+         'Wrong': ('m',), 'OpenWrite': ('b', 'x'), 'OpenRead': ('b',), 'OtherAbort': ('b', 'x'), 'OtherFinish': ('b', 'x')}
 
 
 def evaluate(scripts, c, workdir, timeout=600, workers=1):
